@@ -34,8 +34,8 @@ Case kinds
   acc_fixture  : the same on the shipped sr_document*.dcm
   construct    : the ARGUMENT CHECKS of the template classes (model: run_construct_planar / run_construct_volumetric):
                  none / one / several reference arguments, objects of the wrong class, ImageRegion3D among volumetric
-                 regions, empty region list, ReferencedSegment / VolumeSurface built with images / an EMPTY image list /
-                 a series / nothing, volume surfaces of 0..3 items of every graphic type; observed: the stage that
+                 regions, empty region list, ReferencedSegment / VolumeSurface built with images / an EMPTY image list
+                 (refused since fix D107) / a series / nothing, volume surfaces of 0..3 items of every graphic type; observed: the stage that
                  refuses (object / group) with the exception class, or - when accepted - every accessor of the group
 In every kind a code returned by an accessor is numbered by what it compares EQUAL to (both operand orders,
 Code and CodedConcept) among the variants of its code value, not only by its attributes (code_id).
@@ -423,9 +423,18 @@ def _refuse_filters():
     return out
 
 
+def _invoked_tier():
+    a = sys.argv[1:]
+    return os.environ.get('VERIF_TIER') or (a[0] if a and a[0] in ('quick', 'thorough') else 'quick')
+
+
 def gen_cases(rng, tier):
-    n = {'quick': 60, 'thorough': 500, 'search': 300}[tier]
-    nf = {'quick': 10, 'thorough': 128, 'search': 24}[tier]
+    if tier == 'thorough' and _invoked_tier() == 'quick':
+        # common.main's EXTENDED SEARCH of a quick run (looking for an oracle-failing input after a model
+        # disagreement) asks for the thorough generator; it has to finish in ~3 minutes: use the capped search sizes
+        tier = 'search'
+    n = {'quick': 60, 'thorough': 500, 'search': 110}[tier]
+    nf = {'quick': 10, 'thorough': 128, 'search': 12}[tier]
     cases = []
     for kind, cnt in (('report_mem', n), ('report_doc', n // 3), ('report_file', n), ('report_notid', n)):
         for j in range(cnt):
@@ -535,7 +544,7 @@ def _nested_filters(rng, groups):
 
 
 def _gen_opts_cases(rng, tier):
-    n = {'quick': 24, 'thorough': 250, 'search': 150}[tier]
+    n = {'quick': 24, 'thorough': 250, 'search': 40}[tier]
     cases = []
     for j in range(n):
         ng = rng.choice([1, 2, 3, 4])
@@ -618,7 +627,7 @@ def _construct_item(rng):
 
 
 def _gen_construct_cases(rng, tier):
-    n = {'quick': 16, 'thorough': 150, 'search': 80}[tier]
+    n = {'quick': 16, 'thorough': 150, 'search': 40}[tier]
     return [{'kind': 'construct', 'items': [_construct_item(rng) for _ in range(8)]} for _ in range(n)]
 
 
@@ -780,7 +789,7 @@ def _check_construct(c, out):
 
 def _gen_acc_tree_cases(rng, tier):
     """accessors on damaged trees / shipped documents (drawn last: the earlier kinds keep their cases)"""
-    n = {'quick': 30, 'thorough': 300, 'search': 200}[tier]
+    n = {'quick': 30, 'thorough': 300, 'search': 70}[tier]
     cases = []
     for j in range(n):
         ng = rng.choice([1, 2, 3])
@@ -860,7 +869,7 @@ def _filters_codes(rng, groups, n):
 
 
 def _gen_code_cases(rng, tier):
-    n = {'quick': 48, 'thorough': 400, 'search': 240}[tier]
+    n = {'quick': 48, 'thorough': 400, 'search': 90}[tier]
     cases = []
     for j in range(n):
         ng = rng.choice([1, 2, 3, 3, 4, 5])
@@ -2071,22 +2080,6 @@ def shrink(c):
     if c.get('io') != 'mem':
         yield dict(c, io='mem')
 
-
-def _sig_empty_sources(c):
-    """ReferencedSegment / VolumeSurface accept an EMPTY source image list (and VolumeSurface POINT / ELLIPSOID an
-    empty graphic data list); the group built from such an object raises RuntimeError in referenced_segment / roi /
-    reference_type.  Open finding (id to be confirmed by the lead; effective only while KNOWN_FINDINGS.json lists it
-    as open for C16)."""
-    if c.get('kind') != 'construct':
-        return False
-    for it in c['items']:
-        for sp in [it.get('surface'), it.get('segment')]:
-            if sp and sp[0] in ('seg', 'surf') and (sp[3][0] == [] or (sp[0] == 'surf' and sp[2] == 0)):
-                return True
-    return False
-
-
-FINDINGS = {'D107': _sig_empty_sources}
 
 if __name__ == '__main__':
     sys.exit(common.main(sys.modules[__name__]))
